@@ -112,6 +112,8 @@ def harness_line(c):
         k = o[0]
         if k == "F":
             t += ["F"]
+        elif k == "D":
+            t += ["D"]
         elif k == "U":
             t += ["U", str(o[1])]
         elif k == "M":
@@ -149,7 +151,7 @@ def coq_term(c, obs, profile):
             f, f2 = f.split(";")
             plain = [int(x) for x in f2.split()]
         r = [int(x) for x in f.split()] if f != "-" else []
-        if k == "F":
+        if k in ("F", "D"):            # FFT::new() and FFT::default(): the same fresh object in the model
             ops.append("OFresh")
         elif k == "U":
             ops.append("(OUpd %d)" % o[1])
@@ -296,6 +298,21 @@ def generate(rng, tier):
             lb = rng.choice([l for l in LENS if l <= cap])
             ops.append(mk_op(rng, la, lb))
         cases.append({"ops": ops})
+    # (3b) objects obtained through Default instead of new(): the very first calls on them are the smallest products
+    # and transforms (whatever table size the constructor leaves behind must be enough for them)
+    small = [(1, 1), (1, 2), (2, 1), (2, 2), (1, 3), (3, 1), (2, 3), (4, 4), (5, 3)]
+    for la, lb in small:
+        for kind in ("M", "MI", "V"):
+            op = mk_op(rng, la, lb, kind)
+            cases.append({"ops": [["D"], op, ["D"], mk_op(rng, lb, la, "M"), op]})
+    for _ in range(30 if tier == "quick" else 300):
+        ops = [["D"]]
+        for _ in range(rng.range(1, 4)):
+            if rng.chance(1, 5):
+                ops.append(["D"])
+                continue
+            ops.append(mk_op(rng, rng.choice(LENS[:8]), rng.choice(LENS[:8])))
+        cases.append({"ops": ops})
     # (4) the documented pattern of clause (iv) after the object was used for something larger / smaller
     for _ in range(40 if tier == "quick" else 400):
         la, lb = rng.choice(LENS[1:12]), rng.choice(LENS[1:12])
@@ -361,7 +378,11 @@ def env_configs(tier):
                 for pat in range(5):
                     for (la, lb) in {(L, other), (other, L)}:
                         seed += 1
-                        cfgs.append(("f64", la, lb, mx, pat, seed, samples))
+                        cfgs.append(("f64", la, lb, mx, pat, seed, samples, 0))
+                        if k >= 10 and la == L and other in (L, max(1, L // 2)):
+                            # the other route of the property: fft, fft, pointwise product, fft_inv
+                            seed += 1
+                            cfgs.append(("f64", la, lb, mx, pat, seed, samples, 1))
     # f32: proportional bound max^2 * max(len) <= 1e3
     for L in sorted({1, 2, 3, 4, 5, 7, 8, 9, 15, 16, 17, 31, 32, 33, 63, 64, 65, 100, 127, 128, 129, 250, 255, 256, 257,
                      500, 511, 512, 513, 1000}):
@@ -371,11 +392,11 @@ def env_configs(tier):
         for other in sorted({L, max(1, L // 2), max(1, L - 1)}):
             for pat in range(5):
                 seed += 1
-                cfgs.append(("f32", L, other, mx, pat, seed, samples))
+                cfgs.append(("f32", L, other, mx, pat, seed, samples, 0))
     return cfgs
 
 
-KNOWN_PROBE = ("f64", 3, 262144, 577350, 0, 1, 200)
+KNOWN_PROBE = ("f64", 3, 262144, 577350, 0, 1, 200, 0)
 
 
 def run_lines(binp, lines):
@@ -391,7 +412,7 @@ def run_lines(binp, lines):
 def extra(ctx, known):
     binp = ctx.bins["debug"]
     cfgs = env_configs(ctx.tier)
-    lines = ["E %s %d %d %d %d %d %d" % c for c in cfgs]
+    lines = ["E %s %d %d %d %d %d %d %d" % c for c in cfgs]
     workers = 8
     chunks = [list(range(i, len(lines), workers)) for i in range(workers)]
     results = [None] * len(lines)
@@ -401,7 +422,7 @@ def extra(ctx, known):
             for idxs, outs in zip(chunks, ex.map(lambda ix: run_lines(binp, [lines[i] for i in ix]), chunks)):
                 for i, o in zip(idxs, outs):
                     results[i] = o
-        kp = run_lines(binp, ["E %s %d %d %d %d %d %d" % KNOWN_PROBE])[0]
+        kp = run_lines(binp, ["E %s %d %d %d %d %d %d %d" % KNOWN_PROBE])[0]
     except RuntimeError as e:
         return {"coverage": {"envelope_search": "executor failed"},
                 "violations": [{"name": "envelope-executor", "kind": "broken-correspondence", "nofail": True,
@@ -417,19 +438,20 @@ def extra(ctx, known):
         coeffs += n
         if w:
             wrong_cfg += 1
-            ty, la, lb, mx, pat, seed, smp = c
+            ty, la, lb, mx, pat, seed, smp, route = c
             inside = mx * mx * max(la, lb) <= (10 ** 12 if ty == "f64" else 10 ** 3)
             if len(violations) < 3:
                 violations.append({
                     "name": "envelope-%s" % hashlib.sha256(repr(c).encode()).hexdigest()[:10], "nofail": False,
-                    "payload": {"what": "FFT::<%s>::multiply returned a wrong coefficient inside the symmetric precision envelope "
-                                        "max^2*max(len) <= %s (exact i128 schoolbook reference)" % (ty, "1e12" if ty == "f64" else "1e3"),
+                    "payload": {"what": "FFT::<%s>: %s returned a wrong coefficient inside the symmetric precision envelope "
+                                        "max^2*max(len) <= %s (exact i128 schoolbook reference)" % (
+                                            ty, "fft + pointwise product + fft_inv" if route else "multiply", "1e12" if ty == "f64" else "1e3"),
                                 "float": ty, "len_a": la, "len_b": lb, "max_abs": mx,
                                 "pattern": ["all +max", "a alternating sign, b all +max", "both alternating sign",
                                             "random signs, |coef| = max", "uniform in [-max, max]"][pat],
                                 "generator_seed": seed, "wrong_of_sampled": "%d/%d" % (w, n), "max_abs_error": err,
                                 "first_wrong_index": first, "inside_symmetric_envelope": inside,
-                                "reproduce": "echo 'E %s %d %d %d %d %d %d' | harness/target/debug/c04" % c}})
+                                "reproduce": "echo 'E %s %d %d %d %d %d %d %d' | harness/target/debug/c04" % c}})
     kt = kp.split()
     kwrong = int(kt[1]) if kt[0] == "E" else 0
     if kwrong > 0:
